@@ -111,6 +111,10 @@ Fixpoint run_oracle {A} (m : prog A) (ans : list res) : trace * outcome A :=
          end
   end.
 
+(* a directory entry name as os.listdir can return it: not empty, no '/', not "." or ".." *)
+Definition valid_name (x : str) : bool :=
+  match x with [] => false | _ => negb (mem c_slash x) && negb (str_eqb x [c_dot]) && negb (str_eqb x [c_dot; c_dot]) end.
+
 (* which answers an operation can receive: a value of its type, or an exception of a kind it can raise *)
 Definition valid_res (o : op) (r : res) : bool :=
   match o, r with
@@ -126,7 +130,8 @@ Definition valid_res (o : op) (r : res) : bool :=
   | Stat _, RStat _ _ => true
   | Getsize _, RZ _ => true
   | (Realpath _ | Abspath _ | ReadText _ | Input _), RStr _ => true
-  | (Listdir _ | ListMounts), RList _ => true
+  | Listdir _, RList l => forallb valid_name l
+  | ListMounts, RList _ => true
   | (Makedirs _ _ | OpenExcl _ | WriteFd _ | CloseFd | Move _ _ | Remove _ | Rmtree _), RUnit => true
   | Now, RDate _ => true
   | RandInt _ _, RZ _ => true
